@@ -91,6 +91,16 @@ tx transfer(quantity: Int) {
     output change { to: Sender, amount: source - fees - Ada(quantity), }
     output ? gift { to: Receiver, amount: Ada(quantity), }
 }"""
+# a mint guarded by a redeemer next to a Plutus witness of language 1, 2 or 3: the script-data hash commits to the
+# language view (its id and cost model), so each language makes its own bytes -- on any instance, after any history
+for _v in (1, 2, 3):
+    SRC["mint_v%d" % _v] = """party Sender;
+tx transfer(quantity: Int) {
+    input source { from: Sender, min_amount: fees + Ada(quantity), }
+    mint { amount: AnyAsset(0x""" + "ab" * 28 + """, "t", 1), redeemer: (), }
+    output { to: Sender, amount: source - fees + AnyAsset(0x""" + "ab" * 28 + """, "t", 1), }
+    cardano::plutus_witness { version: """ + str(_v) + """, script: 0x4e4d01000033222220051200120011, }
+}"""
 KIND = {"transfer": "transfer", "transfer_nofee_min": "transfer", "transfer_min": "transfer_min"}
 
 
@@ -356,8 +366,9 @@ def check_c20(tier, seed):
     quick = tier == "quick"
     design(rep, quick)
     tpls = ["out0", "out1", "out3_min2", "out5", "transfer", "transfer_min", "fail", "big_datum_tight", "optional_drop_min",
-            "optional_only_min"]
-    targets = ["transfer_min", "out3_min2", "transfer", "out1", "fail", "optional_drop_min", "optional_only_min"]
+            "optional_only_min", "mint_v1", "mint_v2", "mint_v3"]
+    targets = ["transfer_min", "out3_min2", "transfer", "out1", "fail", "optional_drop_min", "optional_only_min",
+               "mint_v1", "mint_v2", "mint_v3"]
     qq = lambda xs: ", ".join('"%s"' % x for x in xs)  # noqa
     g = core.tlc_mc("MC_History", HIST_CFG.format(tpls=qq(tpls), targets=qq(targets), n=2 if quick else 3),
                     "c20_hist", workers=4, timeout=900)
@@ -377,7 +388,9 @@ def check_c20(tier, seed):
           (300, 200), (20, 30), (0, q), (q, 0), (0, 0)]
     for case in g.cases + extra:
         names = list(case["hist"]) + [case["target"]]
-        for (qh, qt) in (QS if case["hist"] else [(q, q), (0, 0)]):
+        # (the full list where every step writes the quantity into an output; elsewhere the sizes do not depend on it)
+        sens = {"transfer", "out3_min2", "optional_drop_min", "optional_only_min", "big_datum_tight", "fail"}
+        for (qh, qt) in (QS if case["hist"] and set(names) <= sens else [(q, q), (0, 0)]):
             for amounts in (([50_000_000], [3_000_000, 2**32 + 2_400_000], [3_000_000]) if (qh, qt) == (q, q) else ([2**34],)):
                 qs = [qh] * len(case["hist"]) + [qt]
                 steps = [step(n, qq_, amounts) for n, qq_ in zip(names, qs)]
